@@ -77,6 +77,30 @@ def doc_defaults(rep, model, names, rule='DOC-DEFAULT'):
     return n
 
 
+def grid_round(rep, model, names, rule='GRID-ROUND'):
+    """a time on the sample grid times fs is an integer only up to floating-point rounding (fs * 2.07 = 206.99999999999997 at fs = 100): converting it to a
+    sample index must round, not truncate"""
+    import ast
+    rep.rule(rule, 'where a time is converted to a sample index (fs * start, times[0] * fs) the product is rounded to the nearest integer, not truncated: for limits on the '
+                   'sample grid the product can fall just below the intended integer, and int() alone would shift every index by one sample')
+    for name in names:
+        f = model.find(name)
+        bad = []
+        for x in ast.walk(f.node):
+            if isinstance(x, ast.Call) and isinstance(x.func, ast.Name) and x.func.id == 'int' and len(x.args) == 1:
+                a = x.args[0]
+                names_in = {y.id for y in ast.walk(a) if isinstance(y, ast.Name)}
+                is_product = isinstance(a, ast.BinOp) and isinstance(a.op, ast.Mult) and 'fs' in names_in
+                if is_product:
+                    bad.append((x.lineno, ast.unparse(x)))
+        site = f'{f.path}:{f.node.lineno} {name}'
+        if bad:
+            rep.violation(rule, name, f'{f.path}:{bad[0][0]} {name}', expected='int(round(fs * t))', found=f'{len(bad)} truncating conversion(s), e.g. {bad[0][1]}',
+                          key=f'{rule}@{name}')
+        else:
+            rep.ok(rule, name, site, found='time-to-sample conversions are rounded')
+
+
 def lost(rep, model, names, rule='EFF-LOST'):
     summ, det, rounds, ro = effects(model)
     for name in names:
